@@ -324,6 +324,14 @@ def _load():
         reg('LP.part_inbreeding_probability', LP.part_inbreeding_probability, group='lowpass')
     except Exception:
         pass
+    # ---- data dictionaries
+    reg('mk_data_dict', _mk_data_dict, group='make')
+    reg('from_data_dict', lambda dd, pop_ids, proj, mask_corners=True, polarized=True: S.from_data_dict(dd, pop_ids, proj, mask_corners, polarized), group='datadict')
+    reg('count_data_dict', lambda dd, pop_ids: {repr(k): v for k, v in Misc.count_data_dict(dd, pop_ids).items()}, group='datadict')
+    reg('fragment_data_dict', lambda dd, chunk: [sorted(d.keys()) for d in Misc.fragment_data_dict(dd, chunk)], group='datadict')
+    reg('bootstraps_from_dd', lambda dd, chunk, nboot, pop_ids, proj, polarized=True:
+        Misc.bootstraps_from_dd_chunks(Misc.fragment_data_dict(dd, chunk), nboot, pop_ids, proj, polarized=polarized), seed_rng=99, group='datadict')
+    reg('LP.lowpass_call', _lowpass_call, group='lowpass')
     # ---- demes
     reg('from_demes', _from_demes, group='demes')
     # ---- interference (E1, E4): results never compared
@@ -335,6 +343,34 @@ def _load():
     reg('E4.seterr_probe', lambda: dict(np.geterr()), group='interference')
     from . import ops_c19
     ops_c19.register()
+
+
+def _mk_data_dict(seed, nsnp, pops, nchrom, nconfig=4, chroms=('chr1', 'chr2', 'scaffold_10')):
+    """synthetic data dictionary: few distinct SNP configurations (so counts > 1), several chromosomes, some SNPs unpolarised"""
+    rs = np.random.RandomState(seed)
+    configs = []
+    for _ in range(nconfig):
+        calls = {}
+        for pop, n in zip(pops, nchrom):
+            tot = n - rs.randint(0, 2)
+            a2 = rs.randint(0, tot + 1)
+            calls[pop] = (int(tot - a2), int(a2))
+        configs.append(calls)
+    dd = {}
+    for i in range(nsnp):
+        c = configs[rs.randint(0, nconfig)]
+        og = ['A', 'A', 'A', 'T', '-'][rs.randint(0, 5)]
+        dd['%s_%d' % (chroms[rs.randint(0, len(chroms))], 100 + 37 * i)] = {'segregating': ('A', 'T'), 'calls': dict(c), 'outgroup_allele': og,
+                                                                           'context': 'CAG', 'outgroup_context': 'CAG'}
+    return dd
+
+
+def _lowpass_call(model_fn, params, nsub, pts, cov_rows, nseq, Fx=None):
+    from dadi.LowPass import LowPass as LP
+    pop_ids = ['pop%d' % i for i in range(len(nsub))]
+    cov = {p: np.array(r, dtype=float) for p, r in zip(pop_ids, cov_rows)}
+    f = LP.make_low_pass_func_GATK_multisample(model_fn, cov, pop_ids, list(nseq), list(nsub), sim_threshold=1.0, Fx=Fx)
+    return f(params, nsub, pts)
 
 
 def _lp_pp(LP, n, t, Fx, af):
